@@ -37,6 +37,8 @@ def make_plan(prop, rng, idx, tier, variant="asan"):
             return hist.gen_replaced_file(rng, "C13"), "replaced-file"
         if idx % 40 == 6:
             return hist.gen_flavours(rng, "C13"), "value-flavours"
+        if idx % 40 == 35:
+            return hist.gen_odd_file(rng, "C13"), "odd-file"
         if idx % 20 == 9 and variant != "vg":
             # the CLI is one of the executions the property quantifies over
             from . import cli
@@ -77,6 +79,8 @@ def _make_c14(rng, idx):
         m = idx % 10
         if m < 6:
             return hist.gen_history(rng, "C14", hostile=True, faults=(m >= 4)), "hostile"
+        if idx % 40 == 26:
+            return hist.gen_odd_file(rng, "C14"), "odd-file"
         if m < 7:
             return hist.gen_history(rng, "C14", sweep=True), "bomb-sweep"
         if m < 8:
